@@ -1,5 +1,5 @@
 (* C03 - control flow and lexical scoping.  Statements only; proofs in Proofs/. *)
-From Chibicc Require Import Base.Mach Model.Control Proofs.ControlProofs Model.Lowering Proofs.LoweringProofs.
+From Chibicc Require Import Base.Mach Model.Control Proofs.ControlProofs Model.Lowering Proofs.LoweringProofs Model.X86Int Model.ExprGen Model.ExprFlat Proofs.ExprFlatProofs.
 Local Open Scope Z_scope.
 
 (* switch: for a controlling value v of the promoted controlling type (signed or unsigned, 32 or 64
@@ -74,3 +74,12 @@ Definition demo_loop := LFor (LMark 1) (Some 2) (LMark 3) (LSeq (LIf 4 LContinue
 Example C03_lowering_nonvacuous : lexec 20 demo_loop [true; true; true; false; false] = Some ([1; 2; 4; 3; 2; 4; 5; 6; 3; 2], [], ONormal).
 Proof. reflexivity. Qed.
 Print Assumptions C03_lowering_nonvacuous.
+
+(* lowering of && || ?: (ND_LOGAND, ND_LOGOR, ND_COND of gen_expr) to compares, conditional jumps and
+   labels: whenever the code tree (whose && || ?: nodes evaluate their operands as C11 6.5.13-15
+   prescribe: left operand, test, then at most one of the others) runs from a state to a state, the
+   emitted jump code, embedded anywhere, runs from the one to the other and ends at its own end *)
+Theorem C03_shortcircuit_lowering : forall c st st', grun c st = Some st' ->
+  forall P p, fembedded P p (gflatten c p) -> fstar P (p, st) ((p + fsize c)%nat, st').
+Proof. exact gflatten_simulates. Qed.
+Print Assumptions C03_shortcircuit_lowering.
